@@ -244,8 +244,9 @@ def generate_formulas(src):
 
 SITE_FILES = ["equationOfMotion.py", "hydrodynamics.py", "hydrodynamicsTemplateModel.py",
               "thermodynamics.py", "freeEnergy.py", "effectivePotential.py", "manager.py"]
-SITE_FILES += ["helpers.py", "config.py"]
-SIG_FILES = SITE_FILES + ["grid3Scales.py", "results.py"]
+SITE_FILES += ["helpers.py", "config.py", "grid.py", "grid3Scales.py", "boltzmann.py",
+               "interpolatableFunction.py"]
+SIG_FILES = SITE_FILES + ["results.py"]
 # helpers.py is generic in the variable it differentiates with respect to: its position,
 # step and scale carry the pseudo-dimension XDIM (they must stay proportional to each other)
 XDIM = 1000
@@ -281,7 +282,9 @@ DIMS = {
     "helpers.py": [(r"^x$|^scale$|^dx\w*$|^temp$|^bounds$", XDIM), (r"^epsilon$|pressureTol$", 0),
                    # nextStepDeton works in pressure units such that |pressure2| = 1
                    (r"^pressure\d$|^pos\w*$", None)],
-    "grid3Scales.py": [(r"(tailLength(Inside|Outside)|wallThickness|wallCenter)$", -1),
+    "grid.py": [(r"^(z|pz|pp|chi|rz|rp)Compact$", 0), (r"^p[pz]$|^pz\w*$|^pp\w*$|momentumFalloffT$", 1), (r"positionFalloff$", -1)],
+    "boltzmann.py": [(r"^(z|pz|pp|chi|rz|rp)Compact$", 0), (r"^p[pz]$|^pz\w*$|^pp\w*$|momentumFalloffT$", 1)],
+    "grid3Scales.py": [(r"^(z|pz|pp|chi|rz|rp)Compact$", 0), (r"^p[pz]$|^pz\w*$|^pp\w*$", 1),(r"(tailLength(Inside|Outside)|wallThickness|wallCenter)$", -1),
                        (r"momentumFalloffT$", 1)],
     "*": [
         # dimensionless by name although they start like a temperature / pressure
@@ -303,7 +306,7 @@ DIMS = {
         (r"^dPhidz$|^dfieldsdz$", 2),
         # lengths
         (r"^widths?$|wallThickness(Grid)?$|wallCenter(Grid)?$|^tail(Inside|Outside)$|"
-         r"^wallWidths?$|^z$|^xiValues$|^chiValues$|tailLength\w*$", -1),
+         r"^wallWidths?$|^z$|^xiValues$|tailLength\w*$", -1),
         # dimensionless: velocities, ratios, strengths, similarity coordinate, offsets
         (r"^v$|^v[wpmJ]\w*$|^vmin$|^vmax$|^vMin$|^vMax$|^vBracket\w*$|[vV]elocity\w*$|^xi$|"
          r"^offsets?$|^al\w*$|^alpha$|^csq\w*$|^cs2$|^cb2$|^mu$|^nu$|^psiN$|^gamma\w*$|"
@@ -313,7 +316,7 @@ DIMS = {
 
 # keywords (of solver calls, of their `options` dictionaries and of dictionaries later passed
 # as **kwargs) that are ABSOLUTE tolerances / steps in the units of the solver's unknown
-TOL_KW = ("xtol", "atol", "tol", "abstol", "absTol", "xatol", "fatol", "gtol", "ftol", "eps",
+TOL_KW = ("xtol", "atol", "tol", "abstol", "absTol", "abs_tol", "xatol", "fatol", "gtol", "ftol", "eps",
           "first_step", "max_step", "min_step", "initial_step", "h0", "hmax", "hmin")
 REDUCE0 = {"exp", "log", "tanh", "cosh", "sinh", "arctanh", "arctan", "tan", "sign", "cos",
            "sin", "isscalar", "isnan", "isfinite", "len", "all", "any", "allclose"}
@@ -357,6 +360,33 @@ class DimCheck:
                     ps = [a.arg for a in n.args.args]
                     self.sigs.setdefault(n.name, []).append((f, ps))
         self.handled_dicts = set()
+        # parameters that have a default, per callable name; module-level float constants
+        self.defaulted, self.consts = {}, {}
+        for f in SIG_FILES:
+            if f not in sources:
+                continue
+            tree = ast.parse(sources[f])
+            self.consts[f] = {
+                t.id for st in tree.body if isinstance(st, ast.Assign)
+                and is_float_literal(st.value) for t in st.targets if isinstance(t, ast.Name)}
+            for n in ast.walk(tree):
+                if isinstance(n, ast.FunctionDef):
+                    a = n.args.args
+                    d = {x.arg for x, dv in zip(a[len(a) - len(n.args.defaults):],
+                                                n.args.defaults) if numeric_default(dv)} | {
+                        x.arg for x, dv in zip(n.args.kwonlyargs, n.args.kw_defaults)
+                        if dv is not None and numeric_default(dv)}
+                    self.defaulted.setdefault(n.name, set()).update(d)
+                elif isinstance(n, ast.ClassDef):
+                    d = {m.target.id for m in n.body if isinstance(m, ast.AnnAssign)
+                         and m.value is not None and isinstance(m.target, ast.Name)
+                         and numeric_default(m.value)}
+                    for m in n.body:
+                        if isinstance(m, ast.FunctionDef) and m.name == "__init__":
+                            a = m.args.args
+                            d = {x.arg for x, dv in zip(a[len(a) - len(m.args.defaults):],
+                                                        m.args.defaults) if numeric_default(dv)}
+                    self.defaulted.setdefault(n.name, set()).update(d)
 
     # ---- table
     def table(self, file, name, attr=False):
@@ -497,7 +527,8 @@ class DimCheck:
         # whose dimension the naming table cannot tell is recorded too (kind + "?")
         if (da is None) != (db is None) and kind in ("cmp", "add"):
             lit, other = (nb, na) if da is None else (na, nb)
-            if is_float_literal(lit):
+            if is_float_literal(lit) or (isinstance(lit, ast.Name) and lit.id in
+                                         self.consts.get(self.file, ())):
                 self.site(kind + "?", "%s ~ %s" % (ast.unparse(lit), ast.unparse(other)), None)
         if da is None:
             return db
@@ -607,7 +638,16 @@ class DimCheck:
                 elif d is None and not (isinstance(v, ast.Constant) and v.value is None):
                     self.site("xtol?", "{%r: %s}" % (kk.value, ast.unparse(v)), None)
             return None
-        if isinstance(n, (ast.ListComp, ast.GeneratorExp)):
+        if isinstance(n, (ast.ListComp, ast.GeneratorExp, ast.SetComp)):
+            e2 = dict(env)
+            for g in n.generators:
+                self.dim(g.iter, e2)
+                for t in ast.walk(g.target):
+                    if isinstance(t, ast.Name):
+                        e2.pop(t.id, None)
+                for c in g.ifs:
+                    self.dim(c, e2)
+            self.dim(n.elt, e2)
             return None
         if isinstance(n, ast.JoinedStr):
             return None
@@ -633,6 +673,26 @@ class DimCheck:
             for kk, vv in zip(opt[0].keys, opt[0].values):
                 if isinstance(kk, ast.Constant) and kk.value in TOL_KW:
                     tol.append((kk.value, (vv, self.dim(vv, env))))
+        # -- solver calls that leave scipy's ABSOLUTE default in force
+        SOLVERS = {"minimize_scalar": 1, "solve_ivp": 2, "isclose": 0, "allclose": 0,
+                   "RK45": 2, "minimize": 1}
+        if fname in SOLVERS and fname not in self.sigs and not tol and \
+                not any(k.arg is None for k in n.keywords):
+            nm = ast.unparse(kwd["method"][0]) if "method" in kwd else ""
+            if fname != "minimize" or "Nelder" in nm or "Powell" in nm:
+                k = SOLVERS[fname]
+                ud0 = kwd["bounds"][1] if "bounds" in kwd and kwd["bounds"][1] is not None \
+                    else (argd[k] if len(argd) > k else None)
+                if ud0 != 0:
+                    self.site("notol", "%s(%s) without an absolute tolerance keyword" % (
+                        fname, nm), None if isinstance(ud0, tuple) else ud0)
+        if fname == "round" and len(n.args) == 2 and argd[0] != 0:
+            self.site("round", ast.unparse(n), argd[0] if not isinstance(argd[0], tuple)
+                      else None)
+        if fname in ("isclose", "allclose") and len(n.args) >= 4 and not is_zero(n.args[3]) \
+                and argd[0] != 0:
+            self.site("xtol", "%s(positional atol=%s)" % (fname, ast.unparse(n.args[3])),
+                      argd[0] if not isinstance(argd[0], tuple) else None)
         # -- finite-difference helpers must be given the scale of their variable
         if fname in ("derivative", "gradient", "hessian") and "scale" not in kwd and \
                 (isinstance(f, ast.Name) or "super()" in ast.unparse(f)) and len(n.args) < 6:
@@ -690,6 +750,16 @@ class DimCheck:
                 if pd is not None and ad is not None and not isinstance(ad, tuple) and \
                         pd != ad and not is_zero(an):
                     self.site("arg", "%s(%s=%s)" % (fname, p, ast.unparse(an)), pd)
+            # a DIMENSIONFUL parameter of the callee that is not passed: left to a default,
+            # which is a pure number
+            if not any(isinstance(a, ast.Starred) for a in n.args) and \
+                    not any(k.arg is None for k in n.keywords):
+                given = set(ps[:len(n.args)]) | set(kwd)
+                for p_ in ps:
+                    pd = self.table(cfile, p_)
+                    if p_ not in given and p_ in self.defaulted.get(fname, ()) and \
+                            pd not in (None, 0):
+                        self.site("absent", "%s(%s left to its default)" % (fname, p_), pd)
         # -- result dimension
         if fname in ("concatenate", "hstack") and n.args and isinstance(
                 n.args[0], (ast.Tuple, ast.List)):
@@ -736,6 +806,13 @@ def vec(ds):
 
 def fmt(d):
     return str(list(d)) if isinstance(d, tuple) else str(d)
+
+
+def numeric_default(n):
+    """a default that is a non-zero number (None / 0 / strings / booleans do not count)"""
+    c = pyrx.const_value(n)
+    return c is not None and c != 0 and not (
+        isinstance(n, ast.Constant) and isinstance(n.value, bool))
 
 
 def is_float_literal(n):
@@ -867,7 +944,11 @@ def cached_attributes(sources):
     meth = {m.name: m for m in cls.body if isinstance(m, ast.FunctionDef)}
 
     def closure(roots):
-        seen, todo = set(), [r for r in roots if r in meth]
+        missing = [r for r in roots if r not in meth]
+        if missing:
+            raise TranslateError("WallGoManager entry point(s) %s not found: the closures of "
+                                 "the cache-invalidation fact are unknown" % missing)
+        seen, todo = set(), list(roots)
         while todo:
             r = todo.pop()
             if r in seen:
@@ -880,20 +961,88 @@ def cached_attributes(sources):
                     todo.append(n.func.attr)
         return seen
 
+    MUTATORS = {"append", "update", "add", "setdefault", "extend", "insert", "pop", "clear",
+                "remove", "__setitem__"}
+
+    def top(node):
+        """name of the attribute of `self` at the root of a.b[c].d ... , else None"""
+        while isinstance(node, (ast.Attribute, ast.Subscript)):
+            if isinstance(node, ast.Attribute) and isinstance(node.value, ast.Name) and \
+                    node.value.id == "self":
+                return node.attr
+            node = node.value
+        return None
+
     def attrs(names, store):
         out = set()
         for r in names:
             for n in ast.walk(meth[r]):
-                if isinstance(n, ast.Attribute) and isinstance(n.value, ast.Name) and \
-                        n.value.id == "self" and isinstance(
-                            n.ctx, (ast.Store, ast.Del) if store else ast.Load):
+                if store:
+                    if isinstance(n, (ast.Attribute, ast.Subscript)) and isinstance(
+                            n.ctx, (ast.Store, ast.Del)) and top(n):
+                        out.add(top(n))         # self.A = , self.A[k] = , self.A.b =
+                    if isinstance(n, ast.Call) and isinstance(n.func, ast.Attribute) and \
+                            n.func.attr in MUTATORS and top(n.func.value):
+                        out.add(top(n.func.value))      # self.A.append(..), self.A.update(..)
+                    if isinstance(n, ast.Call) and isinstance(n.func, ast.Name) and \
+                            n.func.id in ("setattr", "delattr") and n.args and \
+                            isinstance(n.args[0], ast.Name) and n.args[0].id == "self":
+                        out.add("<setattr %s>" % ast.unparse(n.args[1]) if len(n.args) > 1
+                                else "<setattr>")
+                elif isinstance(n, ast.Attribute) and isinstance(n.value, ast.Name) and \
+                        n.value.id == "self" and isinstance(n.ctx, ast.Load):
                     out.add(n.attr)
         return out
     setup, solver = closure(SETUP_ROOTS), closure(SOLVER_ROOTS)
     if not setup or not solver:
         raise TranslateError("WallGoManager entry points not found")
     made, rebuilt, read = attrs(solver, True), attrs(setup, True), attrs(solver, False)
-    return [(a, a in rebuilt, a in read) for a in sorted(made)], sorted(setup), sorted(solver)
+    rows = [(a, a in rebuilt, a in read or a.startswith("<")) for a in sorted(made)]
+    return rows, sorted(setup), sorted(solver)
+
+
+def default_values(sources):
+    """numeric defaults that carry (or hide) a unit: every field of the config.py dataclasses
+    and every defaulted parameter named like a tolerance / step / scale in the analysed
+    modules, as (where, name, literal text)"""
+    out = []
+    rx = re.compile(r"(?i)tol$|^eps|epsilon$|step|scale$|falloff|^dx$|^dT$|bounds$|^tm(in|ax)$")
+    for f in SIG_FILES:
+        if f not in sources:
+            continue
+        tree = ast.parse(sources[f])
+        for n in ast.walk(tree):
+            if isinstance(n, ast.ClassDef) and f == "config.py":
+                for m in n.body:
+                    if isinstance(m, ast.AnnAssign) and m.value is not None and \
+                            isinstance(m.target, ast.Name):
+                        out.append(("config.py:" + n.name, m.target.id,
+                                    " ".join(ast.unparse(m.value).split())[:60]))
+            elif isinstance(n, ast.FunctionDef):
+                a = n.args.args
+                for x, d in list(zip(a[len(a) - len(n.args.defaults):], n.args.defaults)) + [
+                        (x, d) for x, d in zip(n.args.kwonlyargs, n.args.kw_defaults)
+                        if d is not None]:
+                    if rx.search(x.arg) and not (isinstance(d, ast.Constant)
+                                                 and d.value is None):
+                        out.append(("%s:%s" % (f, n.name), x.arg,
+                                    " ".join(ast.unparse(d).split())[:60]))
+    return out
+
+
+def manager_methods(sources):
+    fname, cname = FLOW_CLASS
+    tree = ast.parse(sources[fname])
+    cls = [n for n in tree.body if isinstance(n, ast.ClassDef) and n.name == cname][0]
+    return [m.name for m in cls.body if isinstance(m, ast.FunctionDef)]
+
+
+def extra_coq(defaults, methods):
+    q = coq_string
+    return ("Definition default_values : list (string * (string * string)) := [\n" + ";\n".join(
+        "  (%s, (%s, %s))" % (q(a), q(b), q(c)) for a, b, c in defaults) + "\n].\n"
+        "Definition manager_methods : list string := [" + "; ".join(q(m) for m in methods)
+        + "].\n")
 
 
 def attrs_coq(rows):
@@ -922,5 +1071,6 @@ def sites_coq(sites):
             "Definition sites : list site := [\n" + ";\n".join(rows) + "\n].\n")
 
 
-def facts_coq(sites, flows, cached=()):
-    return sites_coq(sites) + flows_coq(flows) + attrs_coq(cached)
+def facts_coq(sites, flows, cached=(), defaults=(), methods=()):
+    return sites_coq(sites) + flows_coq(flows) + attrs_coq(cached) + \
+        extra_coq(defaults, methods)
